@@ -2147,6 +2147,9 @@ class Client:
 
         now = time_func()
         self._check_keepalive()
+        if self._sock is None:
+            # _check_keepalive() closed the connection and already reported it.
+            return MQTTErrorCode.MQTT_ERR_CONN_LOST
 
         if self._ping_t > 0 and now - self._ping_t >= self._keepalive:
             # client->ping_t != 0 means we are waiting for a pingresp.
@@ -3290,6 +3293,7 @@ class Client:
                     self._state = _ConnectionState.MQTT_CS_DISCONNECTED
                     rc = MQTTErrorCode.MQTT_ERR_SUCCESS
                 else:
+                    self._state = _ConnectionState.MQTT_CS_CONNECTION_LOST
                     rc = MQTTErrorCode.MQTT_ERR_KEEPALIVE
 
                 self._do_on_disconnect(
